@@ -1,11 +1,13 @@
 #!/usr/bin/env python3
-"""tools/seedmatrix.py [ids...] : run the property's quick check (then thorough if quick misses) against every
+"""tools/seedmatrix.py [--quick-only] [ids...] : run the property's quick check (then thorough if quick misses) against every
 seeded change under /verif/seeded, in a scratch worktree of /repo, and record the verdict in meta.json."""
 import json, os, subprocess, sys, glob, re
 WT = f"/tmp/seedmx-{os.getpid()}"  # one scratch worktree per invocation (several agents may run this at once)
 env = dict(os.environ, GOFLAGS="-mod=mod", GOPROXY="off", GOSUMDB="off", GOTOOLCHAIN="local")
 def sh(cmd, **kw):
     return subprocess.run(cmd, shell=True, capture_output=True, text=True, env=env, **kw)
+QUICK_ONLY = "--quick-only" in sys.argv
+if QUICK_ONLY: sys.argv.remove("--quick-only")
 ids = sys.argv[1:] or sorted(os.path.basename(p) for p in glob.glob("/verif/seeded/*"))
 sh(f"git -C /repo worktree remove --force {WT}; git -C /repo worktree prune")
 sh(f"git -C /repo worktree add -q --detach {WT} HEAD")
@@ -25,7 +27,7 @@ for sid in ids:
         if r.returncode != 0:
             print(sid, "PATCH DOES NOT APPLY", r.stderr[:200]); continue
     verdict = None
-    for check, tier in [(prop, "quick")] + [(c, "quick") for c in extra] + [(prop, "thorough")]:
+    for check, tier in [(prop, "quick")] + [(c, "quick") for c in extra] + ([] if QUICK_ONLY else [(prop, "thorough")]):
         r = sh(f"VERIF_REPO={WT} /verif/run {check} {tier}", cwd="/verif")
         classes = re.findall(r"^  class=(\S+) cases=(\d+)", r.stdout, re.M)
         if "VIOLATION" in r.stdout:
@@ -34,7 +36,7 @@ for sid in ids:
         if r.returncode not in (0, 1):
             verdict = f"{check} {tier}: check exited {r.returncode} without verdict: {(r.stderr or r.stdout)[-300:]}"
             break
-    meta["detected_by"] = verdict or f"MISSED by {prop} quick and thorough"
+    meta["detected_by"] = verdict or (f"MISSED by {prop} quick" if QUICK_ONLY else f"MISSED by {prop} quick and thorough")
     json.dump(meta, open(f"{d}/meta.json", "w"), indent=1)
     print(sid, "->", meta["detected_by"][:200], flush=True)
 sh(f"git -C /repo worktree remove --force {WT}")
